@@ -28,6 +28,8 @@ pub fn profile() -> Profile {
     Profile {
         idioms: false,
         no_fall_off: true,
+        rich_choice_text: true,
+        no_tags_in_functions: true,
         ..Profile::default()
     }
 }
@@ -193,6 +195,109 @@ pub fn layout_variant(src: &str, tape: &[u16]) -> (String, Vec<&'static str>) {
     (out, kinds)
 }
 
+
+fn turn_to_json(t: &Turn) -> J {
+    json!({
+        "lines": t.lines.iter().map(|(x, g)| json!([x, g])).collect::<Vec<_>>(),
+        "stop": match &t.stop {
+            TStop::Choices(c) => json!({"choices": c.iter().map(|(x, g)| json!([x, g])).collect::<Vec<_>>()}),
+            TStop::End => json!("end"),
+            TStop::Error => json!("error"),
+        },
+    })
+}
+
+fn turn_from_json(j: &J) -> Option<Turn> {
+    let pair = |v: &J| -> Option<(String, Vec<String>)> {
+        let a = v.as_array()?;
+        Some((
+            a.first()?.as_str()?.to_string(),
+            a.get(1)?.as_array()?.iter().filter_map(|x| x.as_str().map(|s| s.to_string())).collect(),
+        ))
+    };
+    let lines = j["lines"].as_array()?.iter().filter_map(pair).collect();
+    let stop = match &j["stop"] {
+        J::String(s) if s == "end" => TStop::End,
+        J::String(_) => TStop::Error,
+        o => TStop::Choices(o["choices"].as_array()?.iter().filter_map(pair).collect()),
+    };
+    Some(Turn { lines, stop, note: String::new() })
+}
+
+/// the failing path with what the reference says along it: lets the case be replayed even when
+/// the generator has changed and the tape no longer yields this program
+fn with_frozen(case: &J, path: &[usize], mturns: &[Turn], m: &Machine, lw: &refint::Lowered, globals: &[String]) -> J {
+    let mut c = case.clone();
+    let g: serde_json::Map<String, J> = globals
+        .iter()
+        .map(|n| (n.clone(), json!(m.global(n).map(|v| v.render()).unwrap_or("none".into()))))
+        .collect();
+    let v: serde_json::Map<String, J> = lw.count_names.iter().map(|n| (n.clone(), json!(m.visit_count(n)))).collect();
+    c["frozen"] = json!({
+        "path": path,
+        "turns": mturns.iter().map(turn_to_json).collect::<Vec<_>>(),
+        "globals": g,
+        "visits": v,
+    });
+    c
+}
+
+/// replay of a case whose tape no longer yields the recorded source: the story compiled from
+/// the recorded source is compared with the recorded reference answer
+fn exec_frozen(case: &J, acc: &mut Acc) -> Result<(), Fail> {
+    let src = case["source"].as_str().unwrap_or("");
+    let fr = &case["frozen"];
+    let path: Vec<usize> = fr["path"].as_array().map(|a| a.iter().filter_map(|x| x.as_u64().map(|v| v as usize)).collect()).unwrap_or_default();
+    let want: Vec<Turn> = fr["turns"].as_array().map(|a| a.iter().filter_map(turn_from_json).collect()).unwrap_or_default();
+    let key = case["frozen_key"].as_str().unwrap_or("play-differs:frozen").to_string();
+    acc.class("frozen_replay");
+    let json_text = match guard(|| compile(src)) {
+        Ok(Ok(j)) => j,
+        Ok(Err(e)) => return Err(Fail::violation(key, format!("the recorded program is rejected: {e}"), case.clone())),
+        Err(p) => return Err(Fail::violation(format!("panic@{}", p.site()), format!("compiler panicked: {}", p.msg), case.clone())),
+    };
+    let meta = Rc::new(meta_from_json(&json_text));
+    let (turns, view, fuel) = match real_path(&json_text, &meta, &path) {
+        Ok(Ok(x)) => x,
+        Ok(Err(e)) => return Err(Fail::violation(key, format!("the recorded program does not load: {e}"), case.clone())),
+        Err(p) => return Err(panic_fail(&p, "playing a recorded program", case)),
+    };
+    if fuel {
+        return Ok(());
+    }
+    acc.eval();
+    for i in 0..turns.len().max(want.len()) {
+        let (a, b) = (turns.get(i), want.get(i));
+        if let (Some(x), Some(y)) = (a, b) {
+            if x.stop == TStop::Error && y.stop == TStop::Error && y.lines.starts_with(&x.lines) {
+                continue;
+            }
+        }
+        if a != b {
+            return Err(Fail::violation(
+                key,
+                format!("path {path:?}, turn {i}: story {} | recorded reference {}", a.map(show_turn).unwrap_or("<none>".into()), b.map(show_turn).unwrap_or("<none>".into())),
+                case.clone(),
+            ));
+        }
+    }
+    if let Some(g) = fr["globals"].as_object() {
+        for (n, v) in g {
+            if view.globals.get(n).map(|s| s.as_str()) != v.as_str() {
+                return Err(Fail::violation(key, format!("path {path:?}: global {n} is {:?}, recorded reference says {v}", view.globals.get(n)), case.clone()));
+            }
+        }
+    }
+    if let Some(g) = fr["visits"].as_object() {
+        for (n, v) in g {
+            if view.visits.get(n).copied().unwrap_or(0) as i64 != v.as_i64().unwrap_or(0) {
+                return Err(Fail::violation(key, format!("path {path:?}: visit count of {n} differs from the recorded reference {v}"), case.clone()));
+            }
+        }
+    }
+    Ok(())
+}
+
 struct Bounds {
     depth: usize,
     width: usize,
@@ -297,7 +402,7 @@ fn play_path(
                     a.map(show_turn).unwrap_or("<none>".into()),
                     b.map(show_turn).unwrap_or("<none>".into())
                 ),
-                case.clone(),
+                with_frozen(case, path, &mturns, &m, lw, &meta.globals),
             ));
         }
     }
@@ -308,7 +413,7 @@ fn play_path(
             return Err(Fail::violation(
                 "play-differs:globals",
                 format!("path {path:?}: global {g} is {v}, reference says {mv}"),
-                case.clone(),
+                with_frozen(case, path, &mturns, &m, lw, &meta.globals),
             ));
         }
     }
@@ -319,7 +424,7 @@ fn play_path(
             return Err(Fail::violation(
                 "play-differs:visits",
                 format!("path {path:?}: visit count of {n} is {rv}, reference says {mv}"),
-                case.clone(),
+                with_frozen(case, path, &mturns, &m, lw, &meta.globals),
             ));
         }
     }
@@ -448,6 +553,45 @@ fn explore(src: &str, prog: &crate::ast::Program, bounds: &Bounds, case: &J, acc
     Ok(())
 }
 
+/// Structural classes of programs that meet a listed known finding (known_findings.jsonl).
+/// A failure of such a program is reported under the class key, so that the listing
+/// suppresses exactly that class and nothing else.
+fn known_class(p: &crate::ast::Program) -> Option<&'static str> {
+    use crate::ast::*;
+    fn has_cond(v: &[Inline]) -> bool {
+        v.iter().any(|i| matches!(i, Inline::Cond(..)))
+    }
+    fn has_seq(v: &[Inline]) -> bool {
+        v.iter().any(|i| matches!(i, Inline::Seq(..)))
+    }
+    fn block(b: &Block, found: &mut Option<&'static str>) {
+        if let Some(g) = &b.group {
+            for c in &g.choices {
+                let b_cond = c.bracket.as_ref().map(|b| has_cond(b)).unwrap_or(false);
+                if has_cond(&c.start) || has_cond(&c.end) || b_cond {
+                    found.get_or_insert("known-class:choice-text-inline-conditional");
+                }
+                if has_seq(&c.start) || (c.bracket.is_none() && has_seq(&c.end)) {
+                    found.get_or_insert("known-class:choice-start-sequence");
+                }
+                block(&c.body, found);
+            }
+            if let Some((_, rest)) = &g.gather {
+                block(rest, found);
+            }
+        }
+    }
+    let mut found = None;
+    block(&p.root, &mut found);
+    for k in &p.knots {
+        block(&k.body, &mut found);
+        for s in &k.stitches {
+            block(&s.body, &mut found);
+        }
+    }
+    found
+}
+
 pub fn exec(case: &J, acc: &mut Acc) -> Result<(), Fail> {
     let tape: Vec<u16> = case["tape"]
         .as_array()
@@ -457,9 +601,12 @@ pub fn exec(case: &J, acc: &mut Acc) -> Result<(), Fail> {
     let src = prog.to_ink();
     if let Some(s) = case["source"].as_str() {
         if s != src {
-            return Err(Fail::harness(
-                "stale replay: the generator no longer produces the recorded source from this tape".to_string(),
-            ));
+            // the generator has changed since the case was recorded
+            if case.get("frozen").is_some() {
+                return exec_frozen(case, acc);
+            }
+            acc.class("stale_replay_skipped");
+            return Ok(());
         }
     }
     let bounds = Bounds {
@@ -467,7 +614,20 @@ pub fn exec(case: &J, acc: &mut Acc) -> Result<(), Fail> {
         width: case["width"].as_u64().unwrap_or(6) as usize,
         paths: case["paths"].as_u64().unwrap_or(60) as usize,
     };
-    explore(&src, &prog, &bounds, case, acc)
+    match explore(&src, &prog, &bounds, case, acc) {
+        Err(mut f) if f.kind == FailKind::Violation => {
+            if let Some(cls) = known_class(&prog) {
+                acc.class(cls);
+                f.msg = format!("[{}] {}", f.key, f.msg);
+                f.key = cls.to_string();
+            }
+            if f.case.get("frozen").is_some() {
+                f.case["frozen_key"] = json!(f.key);
+            }
+            Err(f)
+        }
+        r => r,
+    }
 }
 
 pub fn run(env: &Env) -> i32 {
